@@ -304,6 +304,7 @@ def run_cycles(fmt, spec, cycles, workdir):
             out["texts"].append(t if isinstance(t, str) else bytes(t).decode("utf-8", "replace"))
             if i == 0:
                 out["extra"] = history_write_after_edit(fmt, W, m, spec, workdir)
+                COUNTS["write-after-in-place-edit"] = COUNTS.get("write-after-in-place-edit", 0) + 1
             try:
                 rd = R(p)
                 m = rd.transform()
@@ -714,6 +715,9 @@ def run_shard_for(fmt_name, prop, desc, acc, big_sizes=(20, 60)):
                 acc.held("large", S.digest(spec))
     finally:
         shutil.rmtree(work, ignore_errors=True)
+        for k, v in COUNTS.items():       # what the history monitors inside judge() actually ran
+            acc.count("history:" + k, v)
+        COUNTS.clear()
 
 
 def one_case(acc, fmt, prop, spec, tags, cycles, work, cls):
